@@ -199,6 +199,19 @@ def run_coq_shards(meta):
 
 
 # ------------------------------------------------------------------ known findings
+def inventory_static(pid):
+    """New panic / wrap / shared-state sites in the files anchored to this property."""
+    def fn():
+        import inventory
+        new, missing, errors, inv = inventory.compare()
+        out = [("inventory", e) for e in errors]
+        for k in new:
+            if pid in inventory.props_of(k):
+                out.append(("inventory", "site not accounted for by the model: %s" % k))
+        return out
+    return fn
+
+
 def load_known():
     path = os.path.join(ROOT, "known_findings.txt")
     out = []
@@ -262,7 +275,10 @@ def check_property(pid, tier, seed, replay=None):
             m = re.findall(r'^(error[^\n]*\n(?:[^\n]*\n){0,6})', hlog, flags=re.M)
             broken.append(("harness", "harness build against /repo failed: %s" % ("".join(m[:2]) or hlog[-800:])))
         # extra static checks of the property (inventories etc.)
-        for fn in cfg.get("static", []):
+        statics = list(cfg.get("static", []))
+        if cfg.get("inventory"):
+            statics.append(inventory_static(pid))
+        for fn in statics:
             for kind, detail in fn():
                 broken.append((kind, detail))
 
